@@ -165,6 +165,26 @@ CLAIMS["C04"] = (
     "DESIGN.md section 5 C04",
 )
 
+CLAIMS["C06"] = (
+    "truth tables over the login flag and the verdict guards; exhaustive evaluation of the version comparison over 0..300; must-pass-through dataflow; exception-class extraction",
+    "Decides statically: the hello (and iff login the connect) request is sent, all expected responses are collected up to the last expected "
+    "type, the hello response always reaches the version/name verdict and iff login the next one the password verdict, in arrival order, "
+    "before CONNECTED (R1); the version guard rejects exactly major > 2 (evaluated for every major 0..300), the name guard rejects iff "
+    "announced, expected configured and different, the password guard iff invalid_password (R2); error classes APIConnectionError / "
+    "BadNameAPIError carrying the received name / InvalidAuthAPIError (R3); verdict failures propagate and every exceptional exit of the "
+    "phase passes the closer (R4). Behaviour under response order and chunking is not decided.",
+    "DESIGN.md section 5 C06",
+)
+CLAIMS["C15"] = (
+    "schema-driven lint: every write to a command request collected with its normalised guard stack and compared with the wire schema's fields and has_<field> flags; version-threshold tables",
+    "Decides statically for all 19 command methods and 42 presence flags: required parameters written unguarded to the same-named field (R1); "
+    "every optional parameter guarded by `is not None` (never truthiness) writing only its own field with its own value (R2); has_<field> "
+    "set True under the same guard and every flag of the message written (R3); nothing else written (R4); durations int(round(p*1000)) "
+    "(R5); legacy encodings with their exact version thresholds and mappings, service-argument maps consistent with the schema (R6); "
+    "exactly one send per normal path (R7). Float-to-int rounding arithmetic for all values is not decided.",
+    "DESIGN.md section 5 C15",
+)
+
 UNDER_CONSTRUCTION = "rule set not built yet in this round (see DESIGN.md section 5 for the planned static rules)"
 
 NOT_APPLICABLE = {}
